@@ -1,0 +1,51 @@
+//go:build verif
+
+package proxy
+
+import "sort"
+
+// VerifRule is a Rule with its fields readable from outside the package (verification harness only).
+type VerifRule struct {
+	Enabled           bool
+	Scheme            string
+	Host              string
+	Path              string
+	Dest              string
+	Internal          bool
+	Methods           []string
+	Type              int
+	HostHeaderMode    int
+	HostHeader        string
+	Recompression     bool
+	CacheId           string
+	ForceRevalidate   int
+	RequestHeaders    map[string]*string
+	ResponseHeaders   map[string]string
+	RestartOnRedirect bool
+	Retry             *VerifRule
+}
+
+func verifDumpRule(r *Rule) VerifRule {
+	v := VerifRule{Enabled: r.enabled, Scheme: r.scheme, Host: r.host, Path: r.path, Dest: r.dest, Internal: r.internal,
+		Type: int(r.ruleType), HostHeaderMode: int(r.hostHeader.Behavior), HostHeader: r.hostHeader.Override,
+		Recompression: r.recompression, CacheId: r.cacheId, ForceRevalidate: r.forceRevalidate,
+		RequestHeaders: r.requestHeaders, ResponseHeaders: r.responseHeaders, RestartOnRedirect: r.restartOnRedirect}
+	for m := range r.methods {
+		v.Methods = append(v.Methods, m)
+	}
+	sort.Strings(v.Methods)
+	if r.retryRule != nil {
+		rr := verifDumpRule(r.retryRule)
+		v.Retry = &rr
+	}
+	return v
+}
+
+// VerifDumpRules lists the rules of a parsed configuration.
+func VerifDumpRules(rs *Rules) []VerifRule {
+	out := []VerifRule{}
+	for _, r := range rs.rules {
+		out = append(out, verifDumpRule(r))
+	}
+	return out
+}
